@@ -431,11 +431,167 @@ fn stream_docs(rep: &mut Report, drv: &mut Driver, rng: &mut Rng, n: usize) -> R
     Ok(())
 }
 
+/// `<use>` elements: x / y translate the target, so the element's box is the target's box moved by
+/// that much, wherever the target stands; placed by direction or centre they land where asked, and
+/// what is placed relative to them sees that box.
+fn stream_use(rep: &mut Report, drv: &mut Driver, rng: &mut Rng, n: usize) -> Result<(), String> {
+    let mut corr = Stream::new(
+        "doc/use-placement",
+        "correspondence",
+        "a template (rect / circle / ellipse anywhere), an anchor rect, a <use> of the template given plain x / y (with optional dx / dy), a direction relspec or a cxy location relspec, and a follower rect placed relative to the <use>; transform_str output elements vs the Lean model, attribute for attribute",
+    );
+    let mut orc = Stream::new(
+        "oracle/use-placement",
+        "oracle",
+        "same documents; the box of the <use> (target box moved by the output's x / y) is the target moved by the given x / y (attributes unchanged), beside the anchor, or centred on the named point; the follower sits relative to that box (tolerance 0.0011)",
+    );
+    let cfg = default_cfg();
+    for _ in 0..n {
+        let form = rng.below(4);
+        // a polygon has a box but no size of its own: only moved by plain x / y (dx / dy on such a <use>
+        // are applied to the attributes present and otherwise dropped: not exercised here)
+        let ts = if form == 0 { *rng.pick(&["rect", "circle", "ellipse", "polygon"]) } else { *rng.pick(&["rect", "circle", "ellipse"]) };
+        let tb = gen_box(rng, ts == "circle").f();
+        let (tw, th) = (tb[2] - tb[0], tb[3] - tb[1]);
+        let mut t = El::new(ts);
+        t.push("id", "t");
+        if ts == "polygon" {
+            t.push("points", &format!("{} {} {} {} {} {}", fstr_ref(tb[0]), fstr_ref(tb[1]), fstr_ref(tb[2]), fstr_ref((tb[1] + tb[3]) / 2.0), fstr_ref((tb[0] + tb[2]) / 2.0), fstr_ref(tb[3])));
+        } else {
+            for (k, v) in native_el(ts, &tb) { t.push(&k, &v); }
+        }
+        let ab = gen_box(rng, false).f();
+        let mut a = El::new("rect");
+        a.push("id", "a");
+        for (k, v) in native_el("rect", &ab) { a.push(&k, &v); }
+        let mut u = El::new("use");
+        u.push("id", "u");
+        u.push(if rng.chance(1, 4) { "xlink:href" } else { "href" }, "#t");
+        let ub: B;
+        let fname;
+        let mut plain: Option<(Option<String>, Option<String>)> = None;
+        match form {
+            0 | 1 => {
+                let (xk, yk) = (rng.range(-40, 40), rng.range(-40, 40));
+                let (hx, hy) = (rng.chance(3, 4), rng.chance(3, 4));
+                if hx { u.push("x", &half(xk)); }
+                if hy { u.push("y", &half(yk)); }
+                let (mut mx, mut my) = (if hx { xk as f64 / 2.0 } else { 0.0 }, if hy { yk as f64 / 2.0 } else { 0.0 });
+                if form == 1 {
+                    let (dk, ek) = (rng.range(-10, 10), rng.range(-10, 10));
+                    u.push("dx", &half(dk));
+                    u.push("dy", &half(ek));
+                    mx += dk as f64 / 2.0;
+                    my += ek as f64 / 2.0;
+                    fname = "plain+dxdy";
+                } else {
+                    plain = Some((if hx { Some(half(xk)) } else { None }, if hy { Some(half(yk)) } else { None }));
+                    fname = "plain";
+                }
+                ub = [tb[0] + mx, tb[1] + my, tb[2] + mx, tb[3] + my];
+            }
+            2 => {
+                let d = *rng.pick(&["h", "H", "v", "V"]);
+                let gk = rng.range(-6, 12);
+                let gap = gk as f64 / 2.0;
+                u.push("xy", &format!("#a|{d} {}", half(gk)));
+                let (x, y) = match d {
+                    "h" => (ab[2] + gap, (ab[1] + ab[3]) / 2.0 - th / 2.0),
+                    "H" => (ab[0] - gap - tw, (ab[1] + ab[3]) / 2.0 - th / 2.0),
+                    "v" => ((ab[0] + ab[2]) / 2.0 - tw / 2.0, ab[3] + gap),
+                    _ => ((ab[0] + ab[2]) / 2.0 - tw / 2.0, ab[1] - gap - th),
+                };
+                ub = [x, y, x + tw, y + th];
+                fname = "dir";
+            }
+            _ => {
+                let loc = gen_loc(rng);
+                let (dk, ek) = if rng.chance(1, 2) { (rng.range(-10, 10), rng.range(-10, 10)) } else { (0, 0) };
+                u.push("cxy", &format!("#a@{loc} {} {}", half(dk), half(ek)));
+                let (px, py) = loc_point(&ab, &loc);
+                let (px, py) = (px + dk as f64 / 2.0, py + ek as f64 / 2.0);
+                ub = [px - tw / 2.0, py - th / 2.0, px + tw / 2.0, py + th / 2.0];
+                fname = "cxy";
+            }
+        }
+        // follower
+        let mut f = El::new("rect");
+        f.push("id", "f");
+        let fb: B;
+        if rng.chance(1, 2) {
+            let loc = gen_loc(rng);
+            f.push("xy", &format!("{}@{loc}", if rng.chance(1, 2) { "^" } else { "#u" }));
+            let (px, py) = loc_point(&ub, &loc);
+            fb = [px, py, px + 4.0, py + 2.0];
+        } else {
+            f.push("xy", "#u|h 1");
+            fb = [ub[2] + 1.0, (ub[1] + ub[3]) / 2.0 - 1.0, ub[2] + 5.0, (ub[1] + ub[3]) / 2.0 + 1.0];
+        }
+        f.push("wh", "4 2");
+        let els = [t, a, u.clone(), f];
+        let doc = format!("<svg>\n{}\n</svg>", els.iter().map(|e| format!("  {}", e.xml())).collect::<Vec<_>>().join("\n"));
+        corr.case(&doc, true, || json!({"document": doc}));
+        orc.case(&doc, true, || json!({"document": doc}));
+        corr.tally(&format!("form={fname}"));
+        corr.tally(&format!("target={ts}"));
+        let encs: Vec<String> = els.iter().map(|e| e.encode()).collect();
+        let encr: Vec<&str> = encs.iter().map(|s| s.as_str()).collect();
+        let m = drv.call("resolve_doc", &encr)?;
+        let m_err = m.iter().any(|x| x.starts_with("err:"));
+        match transform(&doc, &cfg) {
+            Err(p) => rep.violation(Violation { kind: "oracle", stream: orc.name.clone(), signature: "C09:panic".into(), what: format!("panic: {p}"), replay: json!({"input": doc}), confirmed_on_impl: true }),
+            Ok(Err(e)) => {
+                if m_err { corr.errors_agreed += 1; } else {
+                    rep.violation(Violation { kind: "correspondence", stream: corr.name.clone(), signature: "use:impl-error".into(), what: format!("implementation fails ({}) where the model succeeds", err_kind(&e)), replay: json!({"input": doc}), confirmed_on_impl: false });
+                }
+                rep.violation(Violation { kind: "oracle", stream: orc.name.clone(), signature: format!("C09:use:error:{}", err_kind(&e)), what: format!("transform failed on a valid document: {e}"), replay: json!({"input": doc}), confirmed_on_impl: true });
+            }
+            Ok(Ok(out)) => {
+                let outs = match parse_elements(&out) { Ok(o) => o, Err(e) => { rep.violation(Violation { kind: "oracle", stream: orc.name.clone(), signature: "C09:unparseable".into(), what: e, replay: json!({"input": doc}), confirmed_on_impl: true }); continue; } };
+                let imp: Vec<String> = outs.iter().filter(|o| o.el.get("id").is_some_and(|i| ["t", "a", "u", "f"].contains(&i))).map(|o| o.el.encode()).collect();
+                if !m_err && imp == m { corr.exact += 1; } else {
+                    let idx = imp.iter().zip(m.iter()).position(|(x, y)| x != y).unwrap_or(0);
+                    rep.violation(Violation { kind: "correspondence", stream: corr.name.clone(), signature: format!("use:{fname}"), what: format!("element {idx}: impl {:?} vs model {:?}", imp.get(idx), m.get(idx)), replay: json!({"input": doc, "model": m}), confirmed_on_impl: false });
+                }
+                let get = |id: &str| outs.iter().find(|o| o.el.get("id") == Some(id)).map(|o| o.el.clone());
+                let mut bad: Option<String> = None;
+                match get("u") {
+                    None => bad = Some("the <use> is missing from the output".into()),
+                    Some(uo) => {
+                        let g0 = |k: &str| uo.get(k).map(|v| v.parse::<f64>().unwrap_or(f64::NAN)).unwrap_or(0.0);
+                        let got = [tb[0] + g0("x"), tb[1] + g0("y"), tb[2] + g0("x"), tb[3] + g0("y")];
+                        if !close(&got, &ub) { bad = Some(format!("{} puts the {ts} at {:?}; {} ({fname}) asks for {:?}", uo.xml(), got, u.xml(), ub)); }
+                        if let Some((px, py)) = &plain {
+                            if uo.get("x").map(|s| s.to_string()) != *px && !(px.is_some() && close(&got, &ub)) { bad = Some(format!("plain x changed: {} -> {}", u.xml(), uo.xml())); }
+                            if uo.get("y").map(|s| s.to_string()) != *py && !(py.is_some() && close(&got, &ub)) { bad = Some(format!("plain y changed: {} -> {}", u.xml(), uo.xml())); }
+                        }
+                        for k in ["xy", "cxy", "dx", "dy"] { if uo.get(k).is_some() { bad = Some(format!("{k} left on the output <use>: {}", uo.xml())); } }
+                    }
+                }
+                if bad.is_none() {
+                    match get("f").and_then(|fo| out_box(&fo)) {
+                        Some(b) if close(&b, &fb) => {}
+                        other => bad = Some(format!("the follower of the <use> sits at {:?}, relative to the box {:?} of the <use> it belongs at {:?}", other, ub, fb)),
+                    }
+                }
+                match bad {
+                    None => orc.exact += 1,
+                    Some(what) => rep.violation(Violation { kind: "oracle", stream: orc.name.clone(), signature: format!("C09:use:{fname}"), what, replay: json!({"input": doc}), confirmed_on_impl: true }),
+                }
+            }
+        }
+    }
+    rep.streams.push(corr);
+    rep.streams.push(orc);
+    Ok(())
+}
+
 pub fn run(rep: &mut Report, tier: &str, seed: u64) -> Result<(), String> {
     let mut rng = Rng::new(seed);
     let mut drv = Driver::start()?;
     let n = if tier == "thorough" { 50_000 } else { 1_500 };
     corpus(rep);
     stream_docs(rep, &mut drv, &mut rng.fork(), n)?;
+    stream_use(rep, &mut drv, &mut rng.fork(), n / 2)?;
     Ok(())
 }
